@@ -54,6 +54,8 @@ class Failure:
     oracle: str
     klass: str
     detail: str
+    case: t.Any = None            # optional: the replayable case, when it is not the case the suite handed to check()
+    suite: t.Optional[str] = None  # ... and the suite that replays it
 
     @property
     def key(self) -> str:
@@ -73,8 +75,8 @@ class Ctx:
         self.evals: int = 0
         self.note: t.Optional[str] = None
 
-    def fail(self, oracle: str, klass: str, detail: str = '') -> None:
-        self.fails.append(Failure(oracle, klass, detail[:1500]))
+    def fail(self, oracle: str, klass: str, detail: str = '', case: t.Any = None, suite: t.Optional[str] = None) -> None:
+        self.fails.append(Failure(oracle, klass, detail[:1500], case, suite))
 
     def label(self, *labels: str) -> None:
         self.labels.extend(labels)
@@ -208,18 +210,19 @@ class _Acc:
         for f in ctx.fails:
             rec = self.failures.get(f.key)
             try:
-                enc = codec.dumps(case)
+                enc = codec.dumps(case if f.case is None else f.case)
             except Exception:
                 enc = None
+            sname = f.suite or suite.name
             if rec is None:
                 self.failures[f.key] = {
-                    'key': f.key, 'suite': suite.name, 'shard': shard, 'count': 1,
+                    'key': f.key, 'suite': sname, 'shard': shard, 'count': 1,
                     'detail': f.detail, 'case': enc, 'size': len(enc) if enc else 1 << 30,
                 }
             else:
                 rec['count'] += 1
                 if enc is not None and len(enc) < rec['size']:
-                    rec.update(case=enc, size=len(enc), detail=f.detail, suite=suite.name, shard=shard)
+                    rec.update(case=enc, size=len(enc), detail=f.detail, suite=sname, shard=shard)
 
     def result(self) -> t.Dict[str, t.Any]:
         return {
